@@ -16,7 +16,9 @@ MISMATCH_FN = "mismatch_in (mode_of ptr_sites)"
 VIOLATES_FN = "violates"
 RULE = ("case = (deliver script: init code of a contract-creation EVM tx made of yield / native send / FunToken.bankMsgSend steps, "
         "optionally reverting; 0-3 requests: eth_call / estimateGas / traceTx (view, value transfer, bankMsgSend of unibi or of another "
-        "denom), tx simulation (EVM transfer, EVM bankMsgSend, Cosmos bank send), gRPC balance / funtoken / oracle queries; injection "
+        "denom, sendToBank / sendToEvm of a mapped ERC20; five argument styles incl. EIP-1559 fee cap + tip), tx simulation (EVM transfer, "
+        "EVM bankMsgSend, Cosmos bank send), gRPC balance / funtoken / oracle queries; the scenario tx is priced exactly at the base fee, "
+        "the tail tx is a dynamic-fee tx, the init code stores the block context incl. BASEFEE; injection "
         "point: inside the k-th yield of the in-flight tx, before the tx, between the two txs, after Commit, or PARKED: the request runs "
         "in its own goroutine and is blocked inside FunToken.sendToBank / sendToEvm (bank keeper log line) while both txs are delivered), executed through "
         "BeginBlock/DeliverTx/EndBlock/Commit on two replicas (with / without the requests); non-trivial = at least one request was "
@@ -221,7 +223,9 @@ MANIFEST = {
                  "C09_shared_mutable_state_known: every field of the singleton structs shared by both paths (evm Keeper, bank keeper "
                  "wrapper, collections descriptors, the precompile objects built once by InitPrecompiles) and every package-level var "
                  "of x/evm is classified in a hand-maintained table (immutable after construction / store-backed / registry / per-call "
-                 "/ the one guarded pointer) — a new cache, flag or counter breaks it. For the model "
+                 "/ the one guarded pointer) — a new cache, flag or counter breaks it; C09_no_unreviewed_aliasing: every in-place "
+                 "big-number operation on a receiver that is not syntactically fresh and every function returning a package-level "
+                 "variable itself is a reviewed site. For the model "
                  "these facts select, C09_current_tree proves the FULL statement: for all request scripts, stores and schedules, the "
                  "pointer and the whole deliver thread (committed ledger, written accounts, tx failure, result/event log) equal the "
                  "run of DeliverTx alone, and (C09_current_tree_sequential) the complete sequential execution — by induction over "
